@@ -1,0 +1,43 @@
+//go:build verif
+
+package parse
+
+import "sync/atomic"
+
+// Verification hooks (build tag "verif"). They observe only.
+
+// VerifLexSteps counts calls of (*lexer).next; VerifParseSteps counts calls
+// of (*tree).next; VerifLexLive is the number of scanner goroutines that have
+// started and not yet finished.
+var (
+	VerifLexSteps   int64
+	VerifParseSteps int64
+	VerifLexLive    int64
+	VerifLexStarted int64
+
+	// VerifStepLimit, if non-zero, is the number of scanner or parser steps
+	// after which VerifOverBudget is called (once per crossing).
+	VerifStepLimit  int64
+	VerifOverBudget func(kind string, steps int64)
+)
+
+func verifLexStep() {
+	n := atomic.AddInt64(&VerifLexSteps, 1)
+	if l := atomic.LoadInt64(&VerifStepLimit); l > 0 && n == l && VerifOverBudget != nil {
+		VerifOverBudget("lex", n)
+	}
+}
+
+func verifParseStep() {
+	n := atomic.AddInt64(&VerifParseSteps, 1)
+	if l := atomic.LoadInt64(&VerifStepLimit); l > 0 && n == l && VerifOverBudget != nil {
+		VerifOverBudget("parse", n)
+	}
+}
+
+func verifLexRun(d int64) {
+	if d > 0 {
+		atomic.AddInt64(&VerifLexStarted, 1)
+	}
+	atomic.AddInt64(&VerifLexLive, d)
+}
